@@ -26,10 +26,30 @@ def sim_loop(ctx):
     return f, loops[0]
 
 
-def sim_reach(ctx, precise=True):
-    """Functions reachable from the body of the per-step loop of simulate()."""
+_STEP_MEMO = {}
+
+
+def step_stmts(ctx):
+    """-> (statements of one iteration of the per-step loop, statements that follow the loop).  A loop condition other than `True` is
+    the first statement of the iteration (`if not <condition>: break`): what it calls runs before every step."""
     f, loop = sim_loop(ctx)
-    return ctx.eff.reachable_from_stmts(f, loop.body, precise=precise)
+    if id(loop) not in _STEP_MEMO:
+        body = list(loop.body)
+        if not (isinstance(loop.test, ast.Constant) and loop.test.value is True):
+            brk = ast.If(test=ast.UnaryOp(op=ast.Not(), operand=loop.test), body=[ast.Break()], orelse=[])
+            ast.copy_location(brk, loop)
+            ast.fix_missing_locations(brk)
+            body = [brk] + body
+        top = f.body()
+        post = top[top.index(loop) + 1:] if loop in top else []
+        _STEP_MEMO[id(loop)] = (loop, body, list(loop.orelse) + post)
+    return _STEP_MEMO[id(loop)][1], _STEP_MEMO[id(loop)][2]
+
+
+def sim_reach(ctx, precise=True):
+    """Functions reachable from the per-step loop of simulate() (its condition included)."""
+    f, loop = sim_loop(ctx)
+    return ctx.eff.reachable_from_stmts(f, [loop], precise=precise)
 
 
 def same_class_inline(max_depth=4):
@@ -62,6 +82,25 @@ def same_class_helpers(cls):
     return pol
 
 
+def with_private_pieces(ctx, allowed):
+    """`allowed`: set of qualnames.  -> that set plus every private helper (of any model class / module) whose callers all lie in
+    the set already (a method split into private pieces stays what it was)."""
+    callers = {}
+    for fn in ctx.repo.all_funcs():
+        for cs in ctx.eff.calls.get(id(fn.node), ()):
+            for c in cs.callees:
+                callers.setdefault(c.qualname, set()).add(fn.qualname)
+    ok = set(allowed)
+    changed = True
+    while changed:
+        changed = False
+        for fn in ctx.repo.all_funcs():
+            if is_private_helper(fn) and fn.qualname not in ok and callers.get(fn.qualname) and callers[fn.qualname] <= ok:
+                ok.add(fn.qualname)
+                changed = True
+    return ok
+
+
 def mk_interp(ctx, inline=None, auto_helpers=True, **kw):
     """`auto_helpers`: besides what `inline` accepts, a private helper of the *caller's own class* (or a private function of the
     caller's module) is followed -- a method that was split into private pieces stays one unit of analysis.  Rules that enumerate
@@ -77,7 +116,8 @@ def mk_interp(ctx, inline=None, auto_helpers=True, **kw):
         if caller is None:
             return False
         if callee.cls is not None:
-            return callee.cls == caller.cls
+            # the caller's own class, or a base class it inherits the helper from
+            return callee.cls == caller.cls or (caller.cls is not None and callee.cls in ctx.repo.mro(caller.cls))
         return callee.module is caller.module
     I = Interp(ctx.repo, ctx.types, ctx.eff, inline=pol, **kw)
     I._policy = pol
